@@ -125,9 +125,8 @@ def classify_bitcoin(script: bytes, coin):
                         return Verdict("Pay2MultiSig")
                     # well-formed m-of-n whose pushes are not all public-key sized: statement does not say
                     return Verdict({"Pay2MultiSig", "NotRecognised"})
-            elif m <= k:
-                # OP_m <k pushes> <non-number opcode> OP_CHECKMULTISIG: not classified by the statement
-                return Verdict({"Pay2MultiSig", "NotRecognised"})
+            # OP_m <k pushes> <opcode that is not OP_1..OP_16> OP_CHECKMULTISIG is not an m-of-n multisig (no n): "otherwise
+            # unrecognised". rust-bitcoin's is_multisig() accepts any opcode there; /repo was repaired (see DESIGN 11.3)
     return Verdict("NotRecognised")
 
 
